@@ -37,6 +37,68 @@ def mask_fn(lo, hi):
     return h
 
 
+def mask_chars(lo, hi):
+    """mask() on strings of symbolic digit characters (concrete length, every digit value): content-dependent faults are visible here"""
+    from vsym.symstr import SymStr, Dig, digit_string, concretize_str, cell_eq
+
+    def h():
+        from .pinmods import P
+        card = P().card
+        n = choose('n', list(range(lo, hi + 1)))
+        v = digit_string('d', n)
+        mc = choose('mask', ['*', 'X'])
+
+        def rp():
+            return {'kind': 'maskdigits', 'args': {'digits': concretize_str(v, ev), 'mask': mc}}
+        with guard('mask', 'C16/exception', rp):
+            out = SymStr.of(card.mask(v, mc))
+        require(len(out.cells) == n, 'masked value has a different length', key='C16/length', replay=rp)
+        require(out[0:6] == v[0:6], 'does not begin with the first six characters', key='C16/first6', replay=rp)
+        require(out[n - 4:n] == v[n - 4:n], 'does not end with the last four characters', key='C16/last4', replay=rp)
+        for i in range(6, n - 4):
+            require(cell_eq(out.cells[i], mc), 'position %d does not hold the mask character' % i, key='C16/middle', replay=rp)
+        return {'sample': rp()['args'], 'replay': rp()}
+    return h
+
+
+def typed_processor(proc):
+    """PAN / PAN-PREFIX on a variable-length element that also has a numeric python type: concrete card numbers from a family"""
+    PANS = ['4564320012', '45643200123', '4564320012321122', '5111111111112234', '4111111111111111111', '1234567890123456789']
+
+    def h():
+        iso = M().iso8583
+        cfgs = copy.deepcopy(bit_config())
+        bit = choose('bit', [2, 32, 100])
+        pt = choose('pytype', [None, 'string', 'int', 'long'])
+        pan = choose('pan', PANS)
+        cfgs[str(bit)]['field_processor'] = proc
+        if pt:
+            cfgs[str(bit)]['field_python_type'] = pt
+        rp = {'kind': 'typed', 'args': {'proc': proc, 'bit': bit, 'pytype': pt, 'pan': pan}}
+        wire = iso.dumps({'MTI': '1240', 'DE%d' % bit: pan}, iso_config=cfgs)
+        try:
+            d = iso.loads(wire, iso_config=cfgs)
+        except iso.Iso8583DataError:
+            return {'sample': dict(rp['args'], result='library error: no dictionary returned'), 'replay': rp}
+        except core.ControlFlow:
+            raise
+        except Exception as e:
+            fail('loads raised %s' % type(e).__name__, key='C16/exception', replay=rp)
+        # a numeric python type zero-pads the value to the configured field length on the wire; the processors act on the wire text
+        w = cfgs[str(bit)].get('field_length', 0)
+        pan = pan.zfill(w) if pt in ('int', 'long') else pan
+        secret = pan[6:-4] if proc == 'PAN' else pan[9:]
+        want = (pan[:6] + '*' * (len(pan) - 10) + pan[-4:]) if proc == 'PAN' else pan[:9]
+        got = d.get('DE%d' % bit)
+        require(str(got) == want or (pt in ('int', 'long') and proc == 'PAN-PREFIX' and got == int(want)),
+                'element came back as %r' % (got,), key='C16/proc-value', replay=rp)
+        for k, val in d.items():
+            require(not (len(secret) >= 1 and str(val) != want and secret in str(val) and len(str(val)) >= len(pan) - 1),
+                    'clear PAN appears in %s' % k, key='C16/leak', replay=rp)
+        return {'sample': dict(rp['args'], result=str(got)), 'replay': rp}
+    return h
+
+
 def leaks(value, src, lo, hi):
     """does a decoded value contain characters [lo,hi) of the clear PAN source? -> bool/SBool"""
     if not isinstance(value, Rope):
@@ -96,6 +158,11 @@ def obligations(tier):
     obs = [Ob('mask/10..40', mask_fn(10, 40), 120, 'card numbers of every length 10..40, mask characters %s and the default' % MASKS, _funcs,
               'mask() on inputs shorter than 10 characters is outside the property'),
            Ob('mask/41..%d' % (200 if q else 999), mask_fn(41, 200 if q else 999), 120, 'longer card numbers', _funcs)]
+    obs.append(Ob('mask/digits/10..19', mask_chars(10, 19 if q else 24), 600,
+                  'card numbers of length 10..%d as strings of symbolic digit characters (every digit value at every position): catches content-dependent masking' % (19 if q else 24), _funcs))
+    for proc in ('PAN', 'PAN-PREFIX'):
+        obs.append(Ob('processor-typed/%s' % proc, typed_processor(proc), 120,
+                      '%s on DE2/DE32/DE100 combined with python types none/string/int/long; concrete card numbers from a family (10..19 digits, repeated digits)' % proc, _funcs))
     for proc in ('PAN', 'PAN-PREFIX'):
         for enc in (('latin_1', 'cp500') if q else CODECS):
             obs.append(Ob('processor/%s/%s' % (proc, enc), processor(proc, enc), 600,
